@@ -48,7 +48,10 @@ try:
     with experiment(workdir, "restart", port=-1) as xp:
         xp.workspace.launcher.setenv("PYTHONPATH", os.environ["PYTHONPATH"])
         armed = True      # (the faults are placed between the first submission and the end of the experiment)
-        a = Body2(x=1, log=bodylog, gatedir=gatedir)
+        # XV_FAILFIRST: in this run the first job is configured to fail (a Meta parameter: same identifier, same directory)
+        a = Body2(x=1, log=bodylog, gatedir=gatedir, fail=os.environ.get("XV_FAILFIRST") == "1")
+        if os.environ.get("XV_TAG"):
+            a.tag("attempt", os.environ["XV_TAG"])
         aout = a.submit()
         b = Body2(x=2, log=bodylog, gatedir=gatedir, up=aout)
         b.submit()
